@@ -426,7 +426,7 @@ theorem alloc_cases (w : World) (t n : Nat) :
   · exact Or.inr ⟨_, rfl⟩
 
 /-- no element construction can fail now: the elements are trivial or no fault is pending within the next `n` constructions -/
-def CtorOK (o : Org) (w : World) (n : Nat) : Prop := o.nontrivial = false ∨ ∀ k, w.failC = some k → n ≤ k
+def CtorOK (o : Org) (w : World) (n : Nat) : Prop := o.nontrivial = false ∨ ∀ k, w.failC = some k → o.epp * n ≤ k
 
 theorem grow_some (w : World) (b n : Nat) (blk : Block) (hb : w.heap[b]? = some blk) :
     (w.grow (some b) n).heap = w.heap.set b { blk with cons := blk.cons + n } ∧ (w.grow (some b) n).imgs = w.imgs ∧ (w.grow (some b) n).ub = w.ub := by
@@ -444,9 +444,9 @@ theorem construct_some (w : World) (o : Org) (b n : Nat) (blk : Block) (hb : w.h
     next k hk =>
       split
       next hlt => simp [hnt, hk]; omega
-      · have g := grow_some { w with ctor := w.ctor + n, failC := some (k - n) } b n blk hb
+      · have g := grow_some { w with ctor := w.ctor + o.epp * n, failC := some (k - o.epp * n) } b n blk hb
         simp [g.1, g.2.1, g.2.2]
-    · have g := grow_some { w with ctor := w.ctor + n } b n blk hb
+    · have g := grow_some { w with ctor := w.ctor + o.epp * n } b n blk hb
       simp [g.1, g.2.1, g.2.2]
   · have g := grow_some w b n blk hb
     simp [g.1, g.2.1, g.2.2]
@@ -1244,13 +1244,13 @@ theorem hl_heapset {w : World} (h : HeapLog w) (b : Nat) (f : Block → Block) (
   | some blk => simp only []; rw [map_strip_set _ _ blk _ hb (hf blk)]; exact h
 
 theorem hl_destruct {w : World} (h : HeapLog w) (o : Org) (b : Option Nat) (n : Nat) : HeapLog (w.destruct o b n) := by
-  have h0 : HeapLog (if o.nontrivial then { w with dtor := w.dtor + n } else w) := by
+  have h0 : HeapLog (if o.nontrivial then { w with dtor := w.dtor + o.epp * n } else w) := by
     split
     · exact hl_of_eq h rfl rfl
     · exact h
   unfold World.destruct
   simp only []
-  generalize (if o.nontrivial then { w with dtor := w.dtor + n } else w) = w0 at h0 ⊢
+  generalize (if o.nontrivial then { w with dtor := w.dtor + o.epp * n } else w) = w0 at h0 ⊢
   cases b with
   | none => simp only []; split <;> first | exact h0 | exact hl_of_eq h0 rfl rfl
   | some b => simp only []; exact hl_heapset h0 b (fun blk => { blk with cons := blk.cons - n, over := blk.over || decide (blk.cons < n) }) (fun _ => rfl) _ rfl _ _ _ _ _ _
@@ -1268,8 +1268,8 @@ theorem hl_construct {w : World} (h : HeapLog w) (o : Org) (b : Option Nat) (n :
     next k hk =>
       split
       · exact hl_of_eq h rfl rfl
-      · exact hl_grow (w := { w with ctor := w.ctor + n, failC := some (k - n) }) (hl_of_eq h rfl rfl) b n
-    · exact hl_grow (w := { w with ctor := w.ctor + n }) (hl_of_eq h rfl rfl) b n
+      · exact hl_grow (w := { w with ctor := w.ctor + o.epp * n, failC := some (k - o.epp * n) }) (hl_of_eq h rfl rfl) b n
+    · exact hl_grow (w := { w with ctor := w.ctor + o.epp * n }) (hl_of_eq h rfl rfl) b n
   · exact hl_grow h b n
 
 theorem hl_release {w : World} (h : HeapLog w) (o : Org) (i : Img) : HeapLog (release o w i) := by
